@@ -5,6 +5,8 @@ Translated from the source on every run (fail closed):
   EOM.plasmaVelocity, EOM.temperatureProfileEqLHS    -> same names
   EOM.deltaToTmunu (list comprehension over the particles, column slices of the
                     Delta polynomials)               -> deltaToTmunu
+  EOM.findPlasmaProfile (the loop over the grid: arrays as functions, the success flag)
+                                                     -> findPlasmaProfile_step, findPlasmaProfile
   EOM.findPlasmaProfilePoint  (WHOLE method: s1, s2, the bounded minimiser and the
         bracketed root finder as oracles of the environment, the early return, the
         branch rule, the bracket-search `while` loop as a fuel-indexed Fixpoint)
@@ -142,12 +144,30 @@ class PlasmaTranslator(pyrx.ClassTranslator):
         if isinstance(f, ast.Name) and f.id in self.funcs and not node.keywords:
             return "(%s %s)" % (f.id, " ".join(self.expr(a, env) for a in node.args))
         if isinstance(f, ast.Attribute) and isinstance(f.value, ast.Name) and \
+                f.attr == "getFieldPoint" and len(node.args) == 1 and not node.keywords and \
+                self.type_of(f.value.id, env) == "nat -> FieldPt" and \
+                isinstance(node.args[0], ast.Name) and \
+                self.type_of(node.args[0].id, env) == "nat":
+            return "(%s %s)" % (env.v[f.value.id], env.v[node.args[0].id])
+        if isinstance(f, ast.Attribute) and isinstance(f.value, ast.Name) and \
                 self.type_of(f.value.id, env) == "particle" and not node.keywords:
             return "(%s %s %s)" % (f.attr, env.v[f.value.id],
                                    " ".join(self.expr(a, env) for a in node.args))
         return super().call(node, env)
 
     def subscript(self, node, env):
+        if isinstance(node.value, ast.Name) and (node.value.id, "arr") in env.v:
+            a, n = env.v[node.value.id], env.v[(node.value.id, "arr")]
+            sl = node.slice
+            if isinstance(sl, ast.Name) and self.type_of(sl.id, env) == "nat":
+                return "(%s %s)" % (a, env.v[sl.id])
+            if isinstance(sl, ast.BinOp) and isinstance(sl.op, ast.Sub) and isinstance(
+                    sl.left, ast.Name) and self.type_of(sl.left.id, env) == "nat":
+                c = const_value(sl.right)
+                if c is not None and c.denominator == 1 and c > 0:
+                    # python: a negative index wraps around
+                    return "(%s (pyidx_sub %s %s %d))" % (a, n, env.v[sl.left.id], int(c))
+            raise TranslateError("array index %s (line %d)" % (ast.unparse(sl), node.lineno))
         if isinstance(node.value, ast.Name) and (node.value.id, "col") in env.v:
             base, col = env.v[(node.value.id, "col")]
             if isinstance(node.slice, ast.Name) and \
@@ -341,6 +361,139 @@ class PlasmaTranslator(pyrx.ClassTranslator):
         self.pending = []
         return "\n".join(out)
 
+    # ---- a `for index in range(len(X))` loop filling arrays and clearing a flag -----------
+    def array_loop(self, name, callee, size_name="n"):
+        """Method of the shape
+             A = np.zeros(len(SIZE)); B = np.zeros(len(SIZE)); self.flag = True
+             for index in range(len(SIZE)):  <assignments / if / A[index] = e / self.flag = c>
+             return A, B
+        becomes  NAME_step (one turn of the loop on the state (A, B, flag), arrays as
+        functions nat -> R, python's A[index-1] as A (pyidx_sub n index 1)) and NAME (the fold
+        over seq 0 n from the initial state).  `callee` is the option-valued generated method
+        that the body calls."""
+        fn = self.fn.get(name)
+        if fn is None:
+            raise TranslateError("method %s not found" % name)
+        body = [st for st in fn.body if not (isinstance(st, ast.Expr) and isinstance(
+            st.value, ast.Constant) and isinstance(st.value.value, str))]
+        arrays, flags, size = [], [], None
+        k = 0
+        while k < len(body) and not isinstance(body[k], ast.For):
+            st = body[k]
+            k += 1
+            if not (isinstance(st, ast.Assign) and len(st.targets) == 1):
+                raise TranslateError("%s: initialisation (line %d)" % (name, st.lineno))
+            tg, v = st.targets[0], st.value
+            if isinstance(tg, ast.Name) and _is_mod_call(v, ("np", "numpy"), "zeros") and \
+                    len(v.args) == 1 and not v.keywords and isinstance(v.args[0], ast.Call) \
+                    and isinstance(v.args[0].func, ast.Name) and v.args[0].func.id == "len" \
+                    and len(v.args[0].args) == 1:
+                sz = ast.unparse(v.args[0].args[0])
+                if size not in (None, sz):
+                    raise TranslateError("%s: arrays of different sizes" % name)
+                size = sz
+                arrays.append(tg.id)
+            elif isinstance(tg, ast.Attribute) and isinstance(tg.value, ast.Name) and \
+                    tg.value.id == "self" and isinstance(v, ast.Constant) and v.value is True:
+                flags.append(tg.attr)
+            else:
+                raise TranslateError("%s: initialisation (line %d)" % (name, st.lineno))
+        if k >= len(body) or not arrays or len(flags) != 1:
+            raise TranslateError("%s: not an array-filling loop" % name)
+        loop, rest = body[k], body[k + 1:]
+        if loop.orelse or not isinstance(loop.target, ast.Name) or \
+                ast.unparse(loop.iter) != "range(len(%s))" % size:
+            raise TranslateError("%s: loop header (line %d)" % (name, loop.lineno))
+        if not (len(rest) == 1 and isinstance(rest[0], ast.Return) and isinstance(
+                rest[0].value, ast.Tuple) and [ast.unparse(x) for x in rest[0].value.elts]
+                == arrays):
+            raise TranslateError("%s: must return its arrays" % name)
+        idx = loop.target.id
+        ps = [(a.arg, {"fields": "nat -> FieldPt", "dPhidz": "nat -> FieldPt"}.get(
+            a.arg, self.vtypes.get(a.arg, "R"))) for a in fn.args.args if a.arg != "self"]
+        env = Env()
+        for p, t in ps:
+            env.v[p] = p
+            env.v[(p, "type")] = t
+        env.v[idx] = idx
+        env.v[(idx, "type")] = "nat"
+        state = arrays + flags
+        for a in arrays:
+            env.v[a] = a
+            env.v[(a, "arr")] = size_name
+        self.arr_flags = {f: f for f in flags}
+        self.arr_callee = callee
+        self.cur = self.an(name)
+
+        def fin(e2):
+            return "Some (%s)" % ", ".join([e2.v[a] for a in arrays] +
+                                           [self.arr_flags[f] for f in flags])
+        # flags are threaded through self.arr_flags (python attribute stores)
+        term = self.arr_block(list(loop.body), env, fin, idx)
+        sty = " * ".join(["(nat -> R)"] * len(arrays) + ["bool"] * len(flags))
+        sig = " ".join("(%s : %s)" % p for p in ps)
+        step = ("Definition %s_step (e : %senv) (%s : nat) %s (st_ : %s) (%s : nat) : option (%s) :=\n"
+                "  let '(%s) := st_ in\n  %s." % (self.an(name), self.prefix, size_name, sig, sty,
+                                                idx, sty, ", ".join(state), term))
+        init = ", ".join(["(fun _ : nat => 0)"] * len(arrays) + ["true"] * len(flags))
+        args = " ".join(p for p, _ in ps)
+        whole = ("Definition %s (e : %senv) (%s : nat) %s : option (%s) :=\n"
+                 "  fold_left (fun acc_ %s => match acc_ with Some st_ => %s_step e %s %s st_ %s "
+                 "| None => None end)\n    (seq 0 %s) (Some (%s))." % (
+                     self.an(name), self.prefix, size_name, sig, sty, idx, self.an(name),
+                     size_name, args, idx, size_name, init))
+        self.spans[self.an(name)] = (fn.lineno, fn.end_lineno, pyrx._sha(ast.unparse(fn)))
+        return step + "\n" + whole
+
+    def arr_block(self, stmts, env, fin, idx):
+        if not stmts:
+            return fin(env)
+        st, rest = stmts[0], stmts[1:]
+        if isinstance(st, ast.Assign) and len(st.targets) == 1:
+            tg, v = st.targets[0], st.value
+            # T, v = self.CALLEE(...)   (option-valued generated method)
+            if isinstance(tg, ast.Tuple) and isinstance(v, ast.Call) and \
+                    ast.unparse(v.func) == "self." + self.arr_callee and not v.keywords:
+                names, env2 = [], env.copy()
+                for x in tg.elts:
+                    if not isinstance(x, ast.Name):
+                        raise TranslateError("unpack target (line %d)" % st.lineno)
+                    nm = self.newname(x.id)
+                    names.append(nm)
+                    env2.v[x.id] = nm
+                args = " ".join(self.expr(a, env) for a in v.args)
+                saved = dict(self.arr_flags)
+                inner = self.arr_block(rest, env2, fin, idx)
+                self.arr_flags = saved
+                return ("match %s e %s with\n  | Some (%s) =>\n  %s\n  | None => None\n  end"
+                        % (self.an(self.arr_callee), args, ", ".join(names), inner))
+            # A[index] = e
+            if isinstance(tg, ast.Subscript) and isinstance(tg.value, ast.Name) and \
+                    (tg.value.id, "arr") in env.v and isinstance(tg.slice, ast.Name) and \
+                    tg.slice.id == idx:
+                val = self.expr(v, env)
+                env2 = env.copy()
+                env2.v[tg.value.id] = "(upd %s %s %s)" % (env.v[tg.value.id], idx, val)
+                return self.arr_block(rest, env2, fin, idx)
+            # self.flag = True / False
+            if isinstance(tg, ast.Attribute) and isinstance(tg.value, ast.Name) and \
+                    tg.value.id == "self" and tg.attr in self.arr_flags and \
+                    isinstance(v, ast.Constant) and isinstance(v.value, bool):
+                self.arr_flags[tg.attr] = "true" if v.value else "false"
+                return self.arr_block(rest, env, fin, idx)
+            raise TranslateError("loop body assignment %s (line %d)" % (
+                ast.unparse(tg), st.lineno))
+        if isinstance(st, ast.If):
+            t = self.test(st.test, env)
+            saved = dict(self.arr_flags)
+            a = self.arr_block(list(st.body) + rest, env.copy(), fin, idx)
+            self.arr_flags = dict(saved)
+            b = self.arr_block(list(st.orelse) + rest, env.copy(), fin, idx)
+            self.arr_flags = saved
+            return "if %s\n  then (%s)\n  else (%s)" % (t, a, b)
+        raise TranslateError("loop body statement %s (line %d)" % (type(st).__name__,
+                                                                   st.lineno))
+
     def tail_slice(self, method, coq_name, start, opaque):
         """Definition of the statements of `method` from the first assignment to `start`
         to the end, with the names in `opaque` as parameters."""
@@ -395,7 +548,7 @@ def module_function(src, name):
 
 
 PRELUDE = """From Coq Require Import Reals List.
-From WG Require Import Lib.NumpySem Lib.Plasma.
+From WG Require Import Lib.NumpySem Lib.Plasma Lib.PlasmaLoop.
 Import ListNotations.
 Local Open Scope R_scope.
 """
@@ -410,7 +563,8 @@ def generate(src_eom, src_helpers, src_hydro):
                           funcs=["gammaSq"], vtypes=TYPES)
     tr.ret_arity = {"deltaToTmunu": 2}
     defs = [tr.method("plasmaVelocity"), tr.method("temperatureProfileEqLHS"),
-            tr.method("deltaToTmunu"), tr.method_opt("findPlasmaProfilePoint")]
+            tr.method("deltaToTmunu"), tr.method_opt("findPlasmaProfilePoint"),
+            tr.array_loop("findPlasmaProfile", "findPlasmaProfilePoint")]
     th = PlasmaTranslator(src_hydro, "Hydrodynamics", HYDRO_EXT, [], prefix="H_",
                           funcs=["gammaSq"])
     hdef = th.tail_slice("findHydroBoundaries", "H_hydroBoundaries", "wHighT",
